@@ -146,6 +146,11 @@ func (e *E) write(b *strings.Builder) {
 // ---------------------------------------------------------------------------
 // generation
 
+// Repls are replacement strings for replace(); some name groups a pattern may
+// not have and put a word character right after $n - for C04/C05 the oracle is
+// the engine itself, so such inputs are as good as any.
+var Repls = []string{"", "x", "$1", "[$1]", "$2$1", "$0", "$2x$1", "$1$2y", "<$1$2x>", "[$10]", "$1-$2"}
+
 var Axes = []string{"child", "descendant", "descendant-or-self", "parent", "ancestor", "ancestor-or-self",
 	"following", "following-sibling", "preceding", "preceding-sibling", "self", "attribute"}
 
@@ -174,7 +179,7 @@ func NewGen(r *Rng) *Gen {
 	g.wAxis[11] += r.Range(0, 3)
 	g.wRegex = r.Range(0, 6)
 	g.wIllType = r.Range(0, 12)
-	g.Patterns = []string{"a", "a+", "^a", "b$", "[ab]+", "(a)(b)", "a|b", "(a|b)c", ".", "\\d+", "a*", "(", "[a", "a{2}", "(?i)abc", "x?"}
+	g.Patterns = []string{"a", "a+", "^a", "b$", "[ab]+", "(a)(b)", "a|b", "(a|b)c", ".", "\\d+", "a*", "(", "[a", "a{2}", "(?i)abc", "x?", "(a)", "(.)(.)", "(a)(b)?(c)?"}
 	return g
 }
 
@@ -418,7 +423,7 @@ func (g *Gen) Bool(depth int) *E {
 		return &E{Op: "fn", S: "not", Kids: []*E{g.ill(d, g.Bool)}}
 	case 3:
 		fn := r.Pick([]string{"contains", "starts-with", "ends-with"})
-		return &E{Op: "fn", S: fn, Kids: []*E{g.strArg(d), g.ill(d, g.strLit)}}
+		return &E{Op: "fn", S: fn, Kids: []*E{g.strArg(d), g.mapArg(d)}}
 	case 4:
 		return &E{Op: "fn", S: "boolean", Kids: []*E{g.Any(d)}}
 	case 5:
@@ -432,6 +437,23 @@ func (g *Gen) Bool(depth int) *E {
 }
 
 func (g *Gen) strLit(int) *E { return &E{Op: "str", S: g.R.Pick(Values)} }
+
+// mapArg: an argument that is usually written as a literal but need not be.
+func (g *Gen) mapArg(depth int) *E {
+	r := g.R
+	switch r.Weighted([]int{5, 2, 1, 1, 1}) {
+	case 0:
+		return g.strLit(0)
+	case 1:
+		return g.Path(0)
+	case 2:
+		return &E{Op: "path", Kids: []*E{{Op: "step", S: r.Pick([]string{"self", "parent"}), T: "node()", Abbr: true}}}
+	case 3:
+		return &E{Op: "path", Kids: []*E{{Op: "step", S: r.Pick([]string{"ancestor", "ancestor-or-self"}), T: g.nodeTest("child")}}}
+	default:
+		return g.strArg(depth)
+	}
+}
 
 // strArg: a node-set or a string, as most string functions accept either.
 func (g *Gen) strArg(depth int) *E {
@@ -528,7 +550,7 @@ func (g *Gen) Str(depth int) *E {
 	case 6:
 		return &E{Op: "fn", S: r.Pick([]string{"substring-before", "substring-after"}), Kids: []*E{g.strArg(d), g.strArg(d)}}
 	case 7:
-		return &E{Op: "fn", S: "translate", Kids: []*E{g.strArg(d), g.strLit(0), g.strLit(0)}}
+		return &E{Op: "fn", S: "translate", Kids: []*E{g.strArg(d), g.mapArg(d), g.mapArg(d)}}
 	case 8:
 		return &E{Op: "fn", S: "lower-case", Kids: []*E{g.strArg(d)}}
 	case 9:
@@ -537,7 +559,7 @@ func (g *Gen) Str(depth int) *E {
 		if g.NoRegex {
 			return g.strLit(0)
 		}
-		return &E{Op: "fn", S: "replace", Kids: []*E{g.strArg(d), g.pattern(d), {Op: "str", S: r.Pick([]string{"", "x", "$1", "[$1]", "$2$1", "$0"})}}}
+		return &E{Op: "fn", S: "replace", Kids: []*E{g.strArg(d), g.pattern(d), {Op: "str", S: r.Pick(Repls)}}}
 	}
 }
 
